@@ -190,6 +190,9 @@ def check(case):
         noises.append(closure_recorder(i, "fresh") if kind == "closure" else Recorder(i, kind if kind in ("table", "int") else "fresh"))
     keepA = A.copy()
     anm = must(lib(sempler.ANM, A, assignments, noises), "ANM(...)")
+    if case.get("edit_after_build"):
+        A[...] = 0            # the caller reuses its matrix for something else: the model was built from the graph it was given
+        keepA = A.copy()
     # the constructor deep-copies callable objects: read the logs from the model's own copies
     mnoise = [_rec(f) for f in anm.noise_distributions]
     lab = []
@@ -353,6 +356,7 @@ def anm_case(draw, p_max):
     case["calls"] = calls
     case["sub"] = "anm"
     case["int_draws"] = draw(st.integers(0, 7)) == 0
+    case["edit_after_build"] = draw(st.integers(0, 3)) == 0
     return case
 
 
